@@ -60,6 +60,10 @@ class WishboneSRAM(wiring.Component):
         self._mem_data = MemoryData(depth=(size * granularity) // data_width,
                                     shape=unsigned(data_width), init=init)
         self._mem      = Memory(self._mem_data)
+        # Memory ports are requested once, here, so that the SRAM may be elaborated more than once.
+        self._read_port  = self._mem.read_port()
+        self._write_port = (self._mem.write_port(granularity=granularity)
+                            if self._writable else None)
 
         super().__init__({"wb_bus": In(Signature(addr_width=exact_log2(self._mem.depth),
                                                  data_width=data_width, granularity=granularity))})
@@ -88,14 +92,14 @@ class WishboneSRAM(wiring.Component):
         m = Module()
         m.submodules.mem = self._mem
 
-        read_port = self._mem.read_port()
+        read_port = self._read_port
         m.d.comb += [
             read_port.addr.eq(self.wb_bus.adr),
             self.wb_bus.dat_r.eq(read_port.data),
         ]
 
         if self.writable:
-            write_port = self._mem.write_port(granularity=self.wb_bus.granularity)
+            write_port = self._write_port
             m.d.comb += [
                 write_port.addr.eq(self.wb_bus.adr),
                 write_port.data.eq(self.wb_bus.dat_w),
